@@ -192,7 +192,7 @@ func main() {
 		r.Paths = s.Paths
 		r.ByStatus = s.ByStatus
 		r.Forks = s.Forks
-		r.Solver = map[string]int{"calls": s.SolverCalls, "sat": s.SolverSat, "unsat": s.SolverUnsat, "unknown": s.SolverUnknown}
+		r.Solver = map[string]int{"calls": s.SolverCalls, "sat": s.SolverSat, "unsat": s.SolverUnsat, "unknown": s.SolverUnknown, "cvc5_int_calls": s.AltCalls, "cvc5_int_decided": s.AltDecided, "cut_unknown": s.CutUnknown}
 		r.SolverTime = s.SolverTime.Seconds()
 		r.Unsupported = s.Unsupported
 		r.Samples = s.Samples
